@@ -32,7 +32,11 @@ EXPLANATION = (
 NOT_DECIDED = [
     "the documented 1e-4*F_max truncation bound up to delta = R (a "
     "numerical error bound)",
-    "the size of floating-point round-off",
+    "the size of floating-point round-off: two algebraically equal "
+    "spellings of a formula are equal to the formula engine; one that "
+    "loses digits by cancellation (seeded change C02-Q: E_S - (E_S - E_L)/"
+    "(1 + P xi^n) instead of E_L + (E_S - E_L) P xi^n/(1 + P xi^n)) is not "
+    "reported",
 ]
 ASSUMPTIONS = [
     "numpy's sqrt/tan/** evaluate the mathematical functions they name",
